@@ -88,6 +88,18 @@ fn walk(items: &[syn::Item], file: &str, module: &str, out: &mut Vec<String>) {
                 ));
             }
             syn::Item::Const(c) => {
+                // `const _: () = { impl .. };` wrappers produced by serde_derive: walk the items inside
+                if let syn::Expr::Block(b) = &*c.expr {
+                    let inner: Vec<syn::Item> = b
+                        .block
+                        .stmts
+                        .iter()
+                        .filter_map(|st| if let syn::Stmt::Item(i) = st { Some(i.clone()) } else { None })
+                        .collect();
+                    if !inner.is_empty() {
+                        walk(&inner, file, module, out);
+                    }
+                }
                 out.push(format!(
                     "{{\"kind\":\"const\",\"file\":{},\"module\":{},\"name\":{},\"ty\":{},\"value\":{},\"attrs\":{}}}",
                     esc(file), esc(module), esc(&c.ident.to_string()), esc(&toks(&c.ty)), esc(&toks(&c.expr)), attrs_json(&c.attrs)
